@@ -3,7 +3,7 @@ import PlinioVerif.Model.PIT.Net
 /-! Request syntax of SSA programs shared by the PIT drivers (`Drivers/PITNet.lean`, `Drivers/PITSem.lean`):
    `input c` `conv s cout k bias osz` `dw s k bias osz` `lin s cout bias`
    `fixed s cout k bias osz lin?` `fixeddw s k bias osz` `chan s` `add a b` `cat a,b,…`
-   `tcat a,b,…` `flat s mult` `reuse s layer lsrc cout k bias osz` `output s` -/
+   `tcat a,b,…` `flat s mult` `reuse s layer lsrc cout k bias osz` `reusedw s layer lsrc k bias osz` `output s` -/
 namespace PlinioVerif.PIT
 open PlinioVerif PlinioVerif.Proto
 
@@ -26,6 +26,7 @@ def parseOp (toks : List String) : Option Op :=
   | ["tcat", ss] => some (.tcat (parseNats ss))
   | ["flat", s, m] => do pure (.flat (← s.toNat?) (← m.toNat?))
   | ["reuse", s, o, ls, c, k, b, z] => do pure (.reuse (← s.toNat?) (← o.toNat?) (← ls.toNat?) (← c.toNat?) (← attr k b z))
+  | ["reusedw", s, o, ls, k, b, z] => do pure (.reuseDw (← s.toNat?) (← o.toNat?) (← ls.toNat?) (← attr k b z))
   | ["output", s] => do pure (.output (← s.toNat?))
   | _ => none
 
